@@ -31,12 +31,9 @@ def step (s : DSt) (line : String) : DSt × String :=
     | .error .fuel => (s, "reg err FUEL")
   | ["clear"] => ({ s with g := clear s.g }, "clear")
   | ["cleartype", t] => ({ s with g := clearType s.g (nat! t) }, "cleartype")
-  | ["apply", ty, d] =>
-    let r := apply s.g s.errH (natList d) (nat! ty)
-    (s, s!"apply {showErr r.err} ty={r.ty} data={showNatList r.data} calls={showCalls r.calls} errh={showCalls r.errCalls}")
-  | ["replay", off, ts, ty, d] =>
-    let (e, r) := upcastStored s.g s.errH ⟨nat! off, nat! ts, nat! ty, natList d⟩
-    (s, s!"seen off={e.off} ts={e.ts} ty={e.ty} data={showNatList e.data} calls={showCalls r.calls} errh={showCalls r.errCalls}")
+  | ["replay", off, ts, ty, d, opt] =>
+    let (e, r) := upcastStored s.g s.errH ⟨nat! off, nat! ts, nat! ty, natList d, nat! opt⟩
+    (s, s!"seen off={e.off} ts={e.ts} ty={e.ty} data={showNatList e.data} opt={e.opt} calls={showCalls r.calls} errh={showCalls r.errCalls}")
   | _ => (s, "bad-op " ++ line)
 
 def runCase (lines : Array String) : Array String := Id.run do
